@@ -108,6 +108,13 @@ Fixpoint read_until_final (final : bytes -> bool) (fuel : nat) (s : ipc_state) (
            end
   end.
 
+(* request() as a function of what the socket delivers: the frames up to and including the final one, or
+   None when an exception escapes the loop (OSError "No data received" -> request() returns {"error": ...}).
+   Every delivered frame has at least its 4 header bytes, so the number of loop iterations is bounded by the
+   number of bytes: that bound is the fuel. *)
+Definition client_request (final : bytes -> bool) (sock : list bytes) : option (list bytes) :=
+  read_until_final final (S (length (concat sock))) ipc_init sock.
+
 (* sender side: successive write_bytes calls put this on the wire *)
 Definition wire (msgs : list bytes) : bytes := concat (map encode_frame msgs).
 
